@@ -168,6 +168,24 @@ def gen_graph(rng, wide=False):
                       "deps": before + [gline, {"k": rng.choice(["req", "opt"]), "n": "tx", "v": None, "j": False}]})
         prods.append({"name": "tu", "version": "1", "tags": ["current"], "deps": [{"k": "req", "n": "tx", "v": None, "j": False}]})
         shape += "+tag"
+    if rng.random() < 0.25:
+        # expandtable-style tables: `if (type == exact) {…} else {…}` whose branches list DIFFERENT dependencies; listed by
+        # an Eups object in exact mode (evaluate_exact): the inexact re-walk of the topological modes must not disturb it
+        jx = rng.random() < 0.5
+        prods.append({"name": "ed", "version": "1", "tags": ["current"], "deps": []})
+        prods.append({"name": "ee", "version": "1", "tags": ["current"], "deps": []})
+        prods.append({"name": "eb", "version": "1", "tags": ["current"], "deps": [{"k": "req", "n": "ed", "v": None, "j": False}]})
+        prods.append({"name": "ec", "version": "1", "tags": ["current"], "deps": [{"k": rng.choice(["req", "opt"]), "n": "ee", "v": None, "j": False}]})
+        prods.append({"name": "etop", "version": "1", "tags": ["current"],
+                      "deps": [{"k": "req", "n": "eb", "v": None, "j": False}],
+                      "xdeps": [{"k": "req", "n": "ec", "v": "1", "j": jx}] + ([{"k": "req", "n": "ee", "v": "1", "j": True}] if jx or rng.random() < 0.5 else [])})
+        prods.append({"name": "eu", "version": "1", "tags": ["current"],
+                      "deps": [{"k": "req", "n": "etop", "v": None, "j": False}, {"k": "opt", "n": "ed", "v": None, "j": False}],
+                      "xdeps": [{"k": "req", "n": "etop", "v": "1", "j": False}]})
+        prods.append({"name": "ev", "version": "1", "tags": ["current"],
+                      "deps": [{"k": "req", "n": "ec", "v": None, "j": False}],
+                      "xdeps": [{"k": "req", "n": "eb", "v": "1", "j": False}]})
+        shape += "+exact"
     rng.shuffle(prods)
     return {"products": prods, "shape": shape}
 
@@ -652,6 +670,227 @@ def in_child_job(job):
     return r[1] if r[0] == "ok" else {"crash": r}
 
 
+# ---- exact mode: tables with an exact and an else branch, several listings by one object -----------------------
+
+XVRO = "version versionExpr current"        # no `type:exact`: the stock VRO appends `exact` to the setup type at every resolution
+XMODES = [[False, False], [True, False], [True, True]]
+
+
+def _xeups(root):
+    ecmd = L.cli_eups("list", ["-D", "-e", "--vro", XVRO] + list(root))
+    return ecmd.createEups(ecmd.opts, versionName=root[1], quiet=1)
+
+
+def run_impl_exact(job):
+    """One child per graph.  `shared`: ONE Eups object in exact mode lists every root plainly, topologically, with
+    checkCycles and plainly again, root after root; `fresh`: each of these listings by an object of its own; `uses -e`."""
+    graph, roots, queries = job
+    root = common.scratch("c13x")
+    devnull = os.open(os.devnull, os.O_WRONLY)
+    os.dup2(devnull, 1)
+    os.dup2(devnull, 2)
+    try:
+        L.install(root, graph)
+
+        def one(e, r, mode):
+            try:
+                return L.quietly(lambda: L.canon_listing(e.getDependentProducts(e.getProduct(r[0], r[1]), False,
+                                                                                 topological=mode[0], checkCycles=mode[1])))
+            except BaseException as ex:  # noqa
+                return L.err_class(ex)
+        e1 = _xeups(roots[0])
+        shared, fresh = [], []
+        for r in roots:
+            shared.append([one(e1, r, m) for m in XMODES + [[False, False]]])
+            fresh.append([one(_xeups(r), r, m) for m in XMODES])
+        users, uses = None, None
+        try:
+            ecmd = L.cli_eups("uses", ["-e", "--vro", XVRO, queries[0][0]])
+            e = ecmd.createEups()
+            info = L.quietly(e.uses)
+            uses = "ok"
+        except BaseException as ex:  # noqa
+            uses = L.err_class(ex)
+        if uses == "ok":
+            users = []
+            for n, v in queries:
+                try:
+                    users.append(L.canon_users(L.quietly(e.uses, n, v, 9999, usesInfo=info)))
+                except BaseException as ex:  # noqa
+                    users.append(L.err_class(ex))
+        return {"shared": shared, "fresh": fresh, "uses": uses, "users": users}
+    finally:
+        common.rmtree(root)
+
+
+def in_child_exact(job):
+    r = common.in_child(run_impl_exact, job)
+    return r[1] if r[0] == "ok" else {"crash": r}
+
+
+# ---- the default (implicit) product switched on -----------------------------------------------------------------
+
+IMPLICIT = "implicitProducts"
+
+
+def gen_default_graph(rng):
+    """A DAG of single-version products d0.. (all current, no unsetup lines), and the default product declared with
+    dependencies of its own: implicitProducts -> iq -> ipp (and sometimes -> ipp directly); nothing else names these."""
+    n = rng.randint(2, 5)
+    names = ["d%d" % i for i in range(n)]
+    prods = []
+    for i, m in enumerate(names):
+        deps = [{"k": "opt" if rng.random() < 0.2 else "req", "n": t, "v": None if rng.random() < 0.7 else "1", "j": False}
+                for t in names[i + 1:] if rng.random() < 0.5]
+        prods.append({"name": m, "version": "1", "tags": ["current"], "deps": deps})
+    prods.append({"name": "ipp", "version": "1", "tags": ["current"], "deps": []})
+    prods.append({"name": "iq", "version": "1", "tags": ["current"], "deps": [{"k": "req", "n": "ipp", "v": None, "j": False}]})
+    ideps = [{"k": "req", "n": "iq", "v": None, "j": False}]
+    if rng.random() < 0.4:
+        ideps.insert(rng.randint(0, 1), {"k": rng.choice(["req", "opt"]), "n": "ipp", "v": None, "j": False})
+    prods.append({"name": IMPLICIT, "version": "1", "tags": ["current"], "deps": ideps})
+    rng.shuffle(prods)
+    return {"products": prods, "shape": "default_product"}
+
+
+def with_implicit_lines(g):
+    """The graph as the tables read with the default product on (independent of the model's `Db.withImplicit`): every table
+    ends with an optional line for the default product, except the tables opened below the default product."""
+    R = Resolved(g)
+    ip = [p for p in g["products"] if p["name"] == IMPLICIT][0]
+    below = {t[0] for t in R.closure((IMPLICIT, ip["version"], True))[0]} - {IMPLICIT}
+    line = {"k": "opt", "n": IMPLICIT, "v": None, "j": False}
+    return {"products": [p if p["name"] in below else dict(p, deps=p["deps"] + [line]) for p in g["products"]]}
+
+
+def run_impl_default(job):
+    graph, roots = job
+    root = common.scratch("c13d")
+    devnull = os.open(os.devnull, os.O_WRONLY)
+    os.dup2(devnull, 1)
+    os.dup2(devnull, 2)
+    try:
+        L.install(root, graph, default_product=True)
+        lists = []
+        for r in roots:
+            row = []
+            for mode in MODES:
+                try:
+                    row.append(L.quietly(_listing, r, mode))
+                except BaseException as ex:  # noqa
+                    row.append(L.err_class(ex))
+            lists.append(row)
+        return {"lists": lists}
+    finally:
+        common.rmtree(root)
+
+
+def in_child_default(job):
+    r = common.in_child(run_impl_default, job)
+    return r[1] if r[0] == "ok" else {"crash": r}
+
+
+def evaluate_default(ctx, graphs):
+    """Listings with the default product declared and switched on; roots: every product not below the default product."""
+    L.preimport()
+    jobs = [(g, [[p["name"], p["version"]] for p in g["products"] if p["name"] not in ("iq", "ipp")]) for g in graphs]
+    impl = parallel_map(in_child_default, jobs, workers=4)
+    answers = ctx.lean.ask_many([dict(model_request(g, roots, []), implicit=IMPLICIT) for g, roots in jobs])
+    for (g, roots), io_, ans in zip(jobs, impl, answers):
+        if "bad-op" in ans:
+            raise common.InfraError("driver rejected a C13 default-product request: %s" % ans["bad-op"])
+        if "crash" in io_:
+            raise common.InfraError("implementation child failed: %r" % (io_["crash"],))
+        R = Resolved(with_implicit_lines(g))
+        ml = model_lists(ans)
+        ctx.hist("shape=default_product")
+        for ri, r in enumerate(roots):
+            for mi, mode in enumerate(MODES):
+                out, mo = io_["lists"][ri][mi], ml[ri][mi]
+                inp = {"graph": g, "root": r, "mode": mode, "default_product": True}
+                ctx.case(key=[g["products"], r, mode, "default"], nontrivial=True)
+                ctx.hist("default_product:%s" % (out if isinstance(out, str) else "ok"))
+                # (root = the default product itself, topological modes: the code takes the root out of the graph it sorts —
+                # it lists itself through its own implicit line — and every depth is one less than in the model; the order is
+                # the same and is checked by the oracle)
+                if out != mo and not (r[0] == IMPLICIT and (mode[0] or mode[1])):
+                    ctx.disagree("listing_default_product", inp, out, mo)
+                for clause, fid, detail in oracle_listing(R, r, mode, out, None):
+                    ctx.fail(clause, inp, out, mo, note=detail, finding=fid)
+                if mode[0] and not isinstance(out, str) and r[0] != IMPLICIT:
+                    d = {e[0]: e[4] for e in out}
+                    if IMPLICIT in d and "iq" in d and "ipp" in d:
+                        ctx.hist("default_product:listed_with_its_dependencies")
+                        if not (d[IMPLICIT] < d["iq"] < d["ipp"]):
+                            ctx.fail("edge_order", inp, out, mo, finding=None,
+                                     note="the default product (depth %s) must come before its dependencies iq (%s) and ipp (%s)" % (d[IMPLICIT], d["iq"], d["ipp"]))
+
+
+def exact_graph(g):
+    """the graph an object in exact mode walks first: every table's exact branch where it has one"""
+    return {"products": [dict(p, deps=p["xdeps"]) if "xdeps" in p else p for p in g["products"]]}
+
+
+def evaluate_exact(ctx, graphs):
+    graphs = [g for g in graphs if any("xdeps" in p for p in g["products"])]
+    if not graphs:
+        return
+    jobs = [(g, roots_of(g), queries_of(g)) for g in graphs]
+    impl = parallel_map(in_child_exact, jobs, workers=4)
+    answers = ctx.lean.ask_many([{"m": "c13", "op": "exact", "graph": {"products": g["products"]}, "roots": roots,
+                                  "modes": XMODES, "queries": queries} for g, roots, queries in jobs])
+    for (g, roots, queries), io_, ans in zip(jobs, impl, answers):
+        if "bad-op" in ans:
+            raise common.InfraError("driver rejected a C13 exact request: %s" % ans["bad-op"])
+        if "crash" in io_:
+            raise common.InfraError("implementation child failed: %r" % (io_["crash"],))
+        RX = Resolved(exact_graph(g))
+        ml = model_lists(ans)
+        ctx.hist("graph:exact_and_else_branches_differ")
+        for ri, r in enumerate(roots):
+            differs = any(p["name"] == r[0] and p["version"] == r[1] and "xdeps" in p for p in g["products"])
+            for mi, mode in enumerate(XMODES):
+                out, mo = io_["fresh"][ri][mi], ml[ri][mi]
+                inp = {"graph": g, "root": r, "mode": mode, "exact": True}
+                ctx.case(key=[g["products"], r, mode, "exact"], nontrivial=bool(RX.succ.get((r[0], r[1], True))))
+                if out != mo:
+                    ctx.disagree("listing_exact", inp, out, mo)
+                if mi == 0:
+                    for clause, fid, detail in oracle_listing(RX, r, mode, out, None):
+                        ctx.fail(clause + "_exact", inp, out, mo, note=detail, finding=fid)
+            # the same listings by the object that has listed the earlier roots in every mode; the last one (plain again)
+            # comes right after this root's own topological / checkCycles listings
+            for mi, mode in enumerate(XMODES + [[False, False]]):
+                out, freshv = io_["shared"][ri][mi], io_["fresh"][ri][mi % 3 if mi < 3 else 0]
+                inp = {"graph": g, "root": r, "mode": mode, "exact": True, "sweep": [ri, mi]}
+                ctx.case(key=[g["products"], r, mi, "exact-shared"], nontrivial=differs)
+                if out != ml[ri][mi if mi < 3 else 0]:
+                    ctx.disagree("listing_exact_after_other_listings", inp, out, ml[ri][mi if mi < 3 else 0])
+                if out != freshv:
+                    ctx.fail("listing_independent_of_history", inp, out, ml[ri][mi if mi < 3 else 0], finding=None,
+                             note="exact mode, listed after %d roots x 4 listings (+%d of its own) by the same object: %r; by a fresh one: %r" % (ri, mi, out, freshv))
+                if differs and (ri > 0 or mi == 3):
+                    ctx.hist("exact:branching_root_listed_after_topological_listings")
+        ctx.hist("uses_exact:%s" % io_["uses"])
+        if io_["uses"] != ans.get("uses"):
+            ctx.disagree("uses_exact", {"graph": g, "query": None, "exact": True}, io_["uses"], ans.get("uses"))
+        if io_["uses"] == "ok" and ans.get("uses") == "ok":
+            cache = {}
+            for qi, q in enumerate(queries):
+                out, mo = io_["users"][qi], ans["users"][qi]
+                inp = {"graph": g, "query": q, "exact": True}
+                ctx.case(key=[g["products"], "uses-exact", q], nontrivial=bool(out) and not isinstance(out, str))
+                if out != mo:
+                    ctx.disagree("users_exact", inp, out, mo)
+                for clause, fid, detail in oracle_users(RX, exact_graph(g), q, out, cache):
+                    ctx.fail(clause + "_exact", inp, out, mo, note=detail, finding=fid)
+                if out and not isinstance(out, str) and q[0] in ("ec", "eb", "ee", "ed"):
+                    ctx.hist("exact:users_through_an_exact_branch")
+        elif io_["uses"] != "ok":
+            ctx.fail("uses_no_error_exact", {"graph": g, "query": queries[0], "exact": True}, io_["uses"], ans.get("uses"),
+                     note="uses() raised %s" % io_["uses"], finding=None)
+
+
 def in_child_cli(job):
     r = common.in_child(run_cli_sample, job)
     return r[1] if r[0] == "ok" else {"val": "crash:%r" % (r,), "printed": None}
@@ -684,6 +923,13 @@ def model_lists(ans):
 
 def evaluate(ctx, graphs, ncli=2, corpus=False):
     L.preimport()
+    evaluate_exact(ctx, graphs)
+    # graphs with exact/else tables go through the exact-mode evaluation only: under the stock VRO `type:exact` appends
+    # `exact` to the object's setup type at the first resolution, so which branch a table shows depends on what was
+    # resolved before — outside the model
+    graphs = [g for g in graphs if not any("xdeps" in p for p in g["products"])]
+    if not graphs:
+        return
     jobs = [(g, roots_of(g), queries_of(g)) for g in graphs]
     impl = parallel_map(in_child_job, jobs, workers=4)
     clijobs = []
@@ -716,7 +962,7 @@ def evaluate(ctx, graphs, ncli=2, corpus=False):
             raise common.InfraError("implementation child failed: %r" % (io_["crash"],))
         R = Resolved(g)
         ml = model_lists(ans)
-        ctx.hist("shape=%s" % g.get("shape", "corpus").replace("+j", "").replace("+tag", ""))
+        ctx.hist("shape=%s" % g.get("shape", "corpus").replace("+j", "").replace("+tag", "").replace("+exact", ""))
         if "+j" in g.get("shape", ""):
             ctx.hist("shape+j")
         # a line with a tag / VRO of its own that does not resolve (or whose table cannot be read), followed in the same
@@ -981,13 +1227,16 @@ def corpus_graphs():
                     c = json.load(fh)
                 g = c["graph"]
                 g["shape"] = "corpus:" + f
+                if c.get("default_product"):
+                    g["_default_product"] = True
                 out.append(g)
     return out
 
 
 FLOORS = ("closure:cyclic", "closure:two_declared_versions", "closure:unresolved", "shape=cyclic",
           "closure:unsetup", "closure:unsetup_reentrant", "graph:tagged_line_then_split_versions",
-          "graph:tagged_line_undeclared", "graph:tagged_line_unreadable_table", "closure:j_target_opened_elsewhere",
+          "graph:tagged_line_undeclared", "graph:tagged_line_unreadable_table", "graph:exact_and_else_branches_differ",
+          "exact:branching_root_listed_after_topological_listings", "exact:users_through_an_exact_branch", "closure:j_target_opened_elsewhere",
           "closure:j_target_not_opened", "graph:has_prefix_versions", "users:prefix_version_with_distinct_users")
 
 
@@ -999,8 +1248,12 @@ def run(ctx):
     big = ctx.tier == "thorough" or ctx.escalated
     cg = corpus_graphs()
     ctx.hist("corpus", len(cg))
+    cd = [{k: v for k, v in g.items() if k != "_default_product"} for g in cg if g.get("_default_product")]
+    cg = [g for g in cg if not g.get("_default_product")]
     if cg:
         evaluate(ctx, cg, ncli=1)
+    if cd:
+        evaluate_default(ctx, cd)
     evaluate_topo(ctx, 1500)
     total = enum_count()
     ids = [(ctx.seed * 977 + k * 103) % total for k in range(30)]
@@ -1011,9 +1264,12 @@ def run(ctx):
         k = min(60, n - done)
         evaluate(ctx, [gen_graph(ctx.rng, wide=ctx.tier == "thorough") for _ in range(k)])
         done += k
+    evaluate_default(ctx, [gen_default_graph(ctx.rng) for _ in range(12)])
     if ctx.evaluations and ctx.distinct_nontrivial < ctx.evaluations * 0.3:
         raise common.InfraError("degenerate distribution: %d non-trivial of %d" % (ctx.distinct_nontrivial, ctx.evaluations))
     h = ctx.histogram
+    if not h.get("default_product:listed_with_its_dependencies"):
+        raise common.InfraError("degenerate distribution: no topological listing with the default product and its dependencies")
     if done >= 100:
         for need in FLOORS:
             if not h.get(need):
@@ -1047,6 +1303,21 @@ def replay(ctx, rp):
         a = ctx.lean.ask({"m": "c13", "op": "topo", "graph": g, "cc": cc})
         return {"input": inp, "impl_output": impl, "model_output": a, "fails": []}
     g = inp["graph"]
+    if inp.get("default_product"):
+        c2 = common.Ctx(ctx.pid, ctx.tier, ctx.seed, 600)
+        c2.lean = ctx.lean
+        evaluate_default(c2, [{k: v for k, v in g.items()}])
+        fails = [{"clause": f["clause"], "class": f.get("finding_class"), "detail": f.get("note")} for f in c2.failures]
+        return {"input": inp, "impl_output": [d["impl_output"] for d in c2.disagreements][:3],
+                "model_output": [d["model_output"] for d in c2.disagreements][:3], "agree": not c2.disagreements, "fails": fails[:5]}
+    if inp.get("exact"):
+        # exact-mode cases depend on everything the shared object listed before: re-run the whole graph
+        c2 = common.Ctx(ctx.pid, ctx.tier, ctx.seed, 600)
+        c2.lean = ctx.lean
+        evaluate_exact(c2, [g])
+        fails = [{"clause": f["clause"], "class": f.get("finding_class"), "detail": f.get("note")} for f in c2.failures]
+        return {"input": inp, "impl_output": [d["impl_output"] for d in c2.disagreements][:3],
+                "model_output": [d["model_output"] for d in c2.disagreements][:3], "agree": not c2.disagreements, "fails": fails[:5]}
     R = Resolved(g)
     cli_fails = []
     if "setup" in inp:
